@@ -15,6 +15,9 @@ import sys
 import tempfile
 
 VERIF = os.path.dirname(os.path.dirname(os.path.abspath(__file__)))
+# TETL_CORPUS_WT=<scratch worktree>: apply the patches there and analyse that tree (TETL_REPO) instead of /repo, so several
+# shards (--shard=i/n, then --merge) can run side by side and /repo stays untouched (see tools/corpus_par.sh)
+REPO = os.environ.get("TETL_CORPUS_WT", "/repo")
 SEEDED = os.path.join(VERIF, "seeded")
 
 
@@ -25,6 +28,8 @@ def claimed():
 
 def run_check(pid, out):
     env = dict(os.environ, TETL_VERIF_OUT=out)
+    if REPO != "/repo":
+        env["TETL_REPO"] = REPO
     r = subprocess.run([os.path.join(VERIF, "check"), pid], capture_output=True, text=True, env=env, cwd=VERIF)
     lines = r.stdout.split("\n")
     viol = []
@@ -43,25 +48,38 @@ def main():
         if a.startswith("--dir="):
             SEEDED = os.path.join(VERIF, a.split("=", 1)[1])
     names = args or sorted(d for d in os.listdir(SEEDED) if os.path.isfile(os.path.join(SEEDED, d, "patch.diff")))
-    if subprocess.run(["git", "-C", "/repo", "status", "--porcelain", "--untracked-files=no"], capture_output=True, text=True).stdout.strip():
+    if subprocess.run(["git", "-C", REPO, "status", "--porcelain", "--untracked-files=no"], capture_output=True, text=True).stdout.strip():
         sys.exit("/repo working tree is not clean")
     resfile = os.path.join(SEEDED, "results.json")
     results = json.load(open(resfile)) if os.path.exists(resfile) else {}
+    shard = [a for a in sys.argv[1:] if a.startswith("--shard=")]
+    merge = "--merge" in sys.argv
+    if shard:
+        i, n = [int(x) for x in shard[0].split("=", 1)[1].split("/")]
+        names = names[i::n]
+        resfile = os.path.join(SEEDED, "results.shard%d.json" % i)
+        results = {}
+    if merge:
+        names = []
+        import glob
+        for sf in sorted(glob.glob(os.path.join(SEEDED, "results.shard*.json"))):
+            results.update(json.load(open(sf)))
+            os.remove(sf)
     props = claimed()
     for name in names:
         d = os.path.join(SEEDED, name)
         meta = json.load(open(os.path.join(d, "meta.json")))
         out = tempfile.mkdtemp(prefix="tetl-seeded-")
         try:
-            if subprocess.run(["git", "-C", "/repo", "apply", "--check", os.path.join(d, "patch.diff")], capture_output=True).returncode != 0:
+            if subprocess.run(["git", "-C", REPO, "apply", "--check", os.path.join(d, "patch.diff")], capture_output=True).returncode != 0:
                 print("%-8s DOES-NOT-APPLY (re-base the patch onto /repo HEAD)" % name)
                 continue
-            subprocess.run(["git", "-C", "/repo", "apply", os.path.join(d, "patch.diff")], check=True)
+            subprocess.run(["git", "-C", REPO, "apply", os.path.join(d, "patch.diff")], check=True)
             todo = [meta["property"]] if own else props
             with concurrent.futures.ThreadPoolExecutor(max_workers=8) as ex:
                 rs = list(ex.map(lambda p: run_check(p, out), todo))
         finally:
-            subprocess.run(["git", "-C", "/repo", "checkout", "--", "."], check=True)
+            subprocess.run(["git", "-C", REPO, "checkout", "--", "."], check=True)
             shutil.rmtree(out, ignore_errors=True)
         caught = dict((p, v) for p, rc, v, b in rs if rc == 1)
         broken = dict((p, b) for p, rc, v, b in rs if rc not in (0, 1))
@@ -73,6 +91,8 @@ def main():
             for x in v[:3]:
                 print("      %s: %s" % (p, x[:220]))
     json.dump(results, open(resfile, "w"), indent=1, sort_keys=True)
+    if shard:
+        return
     with open(os.path.join(SEEDED, "INDEX.md"), "w") as f:
         if os.path.basename(SEEDED) == "reverts":
             f.write("# Reverted fixes: each patch undoes one `fix:` commit of /repo; the rule that found the defect must fire again\n\n")
